@@ -26,15 +26,22 @@ import Pyro5.errors as E
 from Pyro5.callcontext import current_context as cctx
 
 MODES = ["single", "session", "percall"]
-SHAPES = ["truthy", "len0", "boolfalse", "eqtrue", "eqfalse"]
+SHAPES = ["truthy", "len0", "boolfalse", "eqtrue", "eqfalse", "unhashable", "slots", "slotseq", "hashraises"]
 FALSY = ("len0", "boolfalse")
-EQ = ("eqtrue", "eqfalse")
+EQ = ("eqtrue", "eqfalse", "unhashable", "slotseq", "hashraises")
+SLOTS = ("slots", "slotseq")            # no __dict__, no __weakref__: liveness is observed through __del__ instead of a weakref
 ACTIONS = ["ok", "raise", "none", "impostor"]
 
 
 # ------------------------------------------------------------------ per-run state (the classes are module level)
+_RUN_IDS = [0]
+
+
 class _Run:
     def __init__(self, sched=None):
+        _RUN_IDS[0] += 1
+        self.runid = _RUN_IDS[0]
+        self.dead = set()       # serials of the instances without weak reference support whose __del__ has run
         self.sched = sched
         self.serial = 0
         self.made = []          # {"serial","key","mode","conn","seq","stamp","end","ref" (weakref only!),"in_creator"}
@@ -69,10 +76,12 @@ def _constructed(self):
         raise RuntimeError("workload class instantiated outside a simulation run")
     run.serial += 1
     self._serial = run.serial
+    self._runid = run.runid
     cls = type(self)
     tid = s.me().idx
     m = {"serial": self._serial, "key": cls._key, "mode": cls._mode, "conn": _conn_of_current_request(),
-         "seq": _seq_of_current_request(), "stamp": s.stamp(), "end": None, "ref": weakref.ref(self),
+         "seq": _seq_of_current_request(), "stamp": s.stamp(), "end": None,
+         "ref": weakref.ref(self) if cls._shape not in SLOTS else None,
          "in_creator": run.in_creator.get(tid, 0) > 0}
     run.made.append(m)
     s.ev("made", cls._key, self._serial)
@@ -127,6 +136,20 @@ def _creator(clazz):
         run.in_creator[tid] -= 1
 
 
+def _same_serial(self, other):
+    return type(other) is type(self) and other._serial == self._serial
+
+
+def _hash_raises(self):
+    raise RuntimeError("this object refuses to be hashed")
+
+
+def _slots_del(self):
+    run = _RUN
+    if getattr(self, "_runid", None) == run.runid:
+        run.dead.add(self._serial)
+
+
 def _make_class(mode, shape, with_creator):
     name = "I_%s_%s_%s" % (mode, shape, "c" if with_creator else "n")
     ns = {"__module__": __name__, "__qualname__": name, "__init__": _constructed, "who": _who, "note": _note,
@@ -141,6 +164,20 @@ def _make_class(mode, shape, with_creator):
     elif shape == "eqfalse":
         ns["__eq__"] = lambda self, other: False             # not even equal to itself
         ns["__hash__"] = lambda self: 7
+    elif shape == "unhashable":
+        ns["__eq__"] = _same_serial                          # compares by content, and (like list/dict/set) cannot be hashed
+        ns["__hash__"] = None
+    elif shape == "slots":
+        ns["__slots__"] = ("_serial", "_runid")              # no __dict__, cannot be weakly referenced
+        ns["__del__"] = _slots_del
+    elif shape == "slotseq":
+        ns["__slots__"] = ("_serial", "_runid")
+        ns["__eq__"] = lambda self, other: True
+        ns["__hash__"] = lambda self: 7
+        ns["__del__"] = _slots_del
+    elif shape == "hashraises":
+        ns["__eq__"] = _same_serial
+        ns["__hash__"] = _hash_raises
     cls = type(name, (object,), ns)
     # identical to:  @api.behavior(instance_mode=..., instance_creator=...)  @api.expose  class ...
     cls = api.behavior(instance_mode=mode, instance_creator=_creator if with_creator else None)(api.expose(cls))
@@ -215,8 +252,10 @@ def _codes():
 
 
 def _alive(recs):
-    """serials of the records whose instance still exists; looks only through the weak references"""
-    return [m["serial"] for m in recs if m["ref"]() is not None]
+    """serials of the records whose instance still exists; looks only through the weak references
+    (instances that cannot be weakly referenced report their own finalisation)"""
+    dead = _RUN.dead
+    return [m["serial"] for m in recs if (m["ref"]() is not None if m["ref"] is not None else m["serial"] not in dead)]
 
 
 class InstWorld(World):
@@ -234,9 +273,10 @@ class InstWorld(World):
               "session_dropped_after_reset", "commtimeout", "slow_constructor", "single_creation_longer_than_commtimeout_contended",
               "stalled_in_getInstance", "oneway_served", "oneway_first_call", "oneway_first_then_call_slow_session",
               "session_dropped_after_oneway_then_disconnect", "daemon_closed_with_open_connections", "served_after_daemon_close",
-              "single_served_after_daemon_close", "session_dropped_although_disconnect_hook_raised", "session_dropped_after_daemon_close"]
+              "single_served_after_daemon_close", "unhashable_shape", "slots_shape", "slots_session_dropped_verified", "session_dropped_although_disconnect_hook_raised", "session_dropped_after_daemon_close"]
     RULE = ("plan = (server type, serializer, 1-3 registered classes out of {single,session,percall} x {truthy, falsy via __len__, "
-            "falsy via __bool__, __eq__ always True, __eq__ always False} x {no creator, creator script of ok/raise/None/foreign "
+            "falsy via __bool__, __eq__ always True, __eq__ always False, __eq__ without __hash__ (unhashable), __slots__ without __weakref__ / "
+            "__dict__, __slots__ with __eq__, __hash__ that raises} x {no creator, creator script of ok/raise/None/foreign "
             "object per invocation}, 2-4 clients x 1-3 connections (released or reset by the client; same or new proxy) x 0-4 calls, normal or one-way (a call may address another registered class over "
             "the same connection), construction time 0/0.05/0.9 virtual s per class, COMMTIMEOUT 0 or 0.3 s, optional barrier releasing all "
             "first calls together, a clientDisconnect hook that raises for chosen connections, optionally daemon.shutdown()/close() while every "
@@ -253,6 +293,7 @@ class InstWorld(World):
                    "an executed one-way call counts like an answered call; a one-way call that was never executed (creator failed, request "
                    "lost with a reset connection) is not judged",
                    "an instance held only by a garbage cycle counts as dropped (gc.collect() before a leak is reported)",
+                   "instances of the __slots__ shapes cannot be weakly referenced: their death is observed through their own __del__",
                    "a request needs at most one new instance, so at most one creator invocation may happen while serving one request",
                    "a creator that returns an object that is not an instance of the class has failed: the call must not be served by that object",
                    "methods of the workload classes never raise, so every error reply stems from instance creation"]
@@ -283,7 +324,8 @@ class InstWorld(World):
                     mode = "single"
                 else:
                     mode = rng.choice(MODES)
-                shape = rng.choice(["truthy", "truthy", "truthy", "len0", "boolfalse", "eqtrue", "eqfalse"])
+                shape = rng.choice(["truthy", "truthy", "truthy", "len0", "boolfalse", "eqtrue", "eqfalse",
+                                    "unhashable", "slots", "slotseq", "hashraises"])
                 cr = rng.random() < 0.5
                 if (mode, shape, cr) not in used:
                     break
@@ -582,6 +624,7 @@ class InstWorld(World):
                 crec["ended"] = True
                 crec["leak"] = left
                 crec["checked"] = len(mine)
+                crec["checked_slots"] = sum(1 for m in mine if m["ref"] is None)
                 crec["others_open"] = sum(1 for x in conns if not x["ended"])
                 sched.ev("ended", conn, len(mine), tuple(left))
                 prev = (p, so)
@@ -714,6 +757,10 @@ class InstWorld(World):
                     ctx.probe("falsy_shape")
                 if e["shape"] in EQ:
                     ctx.probe("eq_shape")
+                if e["shape"] in ("unhashable", "hashraises"):
+                    ctx.probe("unhashable_shape")
+                if e["shape"] in SLOTS:
+                    ctx.probe("slots_shape")
                 ctx.probe(e["mode"])
                 if rec["foreign"]:
                     ctx.probe("multi_class_connection")
@@ -848,6 +895,8 @@ class InstWorld(World):
                     ctx.probe("session_dropped_although_disconnect_hook_raised")
                 if c.get("survivor"):
                     ctx.probe("session_dropped_after_daemon_close")
+                if c.get("checked_slots"):
+                    ctx.probe("slots_session_dropped_verified")
                 lr = last_of_conn.get(c["conn"])
                 if lr is not None and lr["kind"] == "note" and "serial" in lr and by_key[lr["key"]]["mode"] == "session":
                     ctx.probe("session_dropped_after_oneway_then_disconnect")
